@@ -1,4 +1,5 @@
 import GopatchModel.Cli
+import GopatchModel.FileM
 namespace Gopatch.C06
 open Gopatch
 
@@ -57,6 +58,18 @@ theorem all_noMatch_exit0 (o : Opts) (dt) (fs : List FileIn)
 /-- the library API returns the input bytes unchanged when nothing matches -/
 theorem api_noMatch (src : String) : applyApi src true .noMatch = .ok src := by
   simp [applyApi]
+
+/-- **No change applies, nothing happens to the tree.** When none of the changes of the run matches the file (its guards
+fail or its pattern occurs nowhere), the change loop of the command line hands back the very tree it was given, reports no
+match and no error - which is the outcome `.noMatch` the per-file step above starts from - and so does the library's loop. -/
+theorem no_change_applies_means_unmatched (dmg : Change → FileM → FileM) :
+    ∀ (cs : List Change) (f : FileM) (m : Bool), (∀ c ∈ cs, fileMatch c f = none) →
+      applyChangesCli cs f m = (f, m, none) ∧ applyChangesApi dmg cs f m [] = (f, m, [])
+  | [], f, m, _ => by simp [applyChangesCli, applyChangesApi]
+  | c :: cs, f, m, h => by
+    have hc : applyChange c f = .noMatch := by simp [applyChange, h c (List.mem_cons_self)]
+    have ih := no_change_applies_means_unmatched dmg cs f m (fun x hx => h x (List.mem_cons_of_mem _ hx))
+    simp [applyChangesCli, applyChangesApi, hc, ih.1, ih.2]
 
 def sampleFile : FileIn :=
   { abs := "/a.go"
